@@ -890,6 +890,7 @@ func runScript(r *engine.Run) {
 			}
 		}
 	}
+	runHistories(r)
 }
 
 // ---------------------------------------------------------------------------
